@@ -250,7 +250,7 @@ def run(tier):
         tr, _ = translate_effects.regenerate()
         n_writes = sum(1 for s in tr["update"]["stmts"] if s[0] == "write")
         n_copies = sum(1 for s in tr["update"]["stmts"] if s[0] == "copy")
-        chk.obligation("effects-translated", n_writes > 0 and n_copies == 2, f"update: {n_copies} copies, {n_writes} stores; roots: " + ", ".join(f"{k}: {len(v['stmts'])} statements / {len(v['escapes'])} escapes" for k, v in tr.items()))
+        chk.obligation("effects-translated", n_writes > 0 and n_copies >= 2, f"update: {n_copies} copies, {n_writes} stores; roots: " + ", ".join(f"{k}: {len(v['stmts'])} statements / {len(v['escapes'])} escapes" for k, v in tr.items()))
         chk.notes.append("effect translator: " + "; ".join(f"{k} = {v['source']} ({len(v['stmts'])} statements, {len(v['escapes'])} escapes)" for k, v in tr.items()))
     except Exception as e:  # noqa
         chk.obligation("effects-translated", False, f"{type(e).__name__}: {e}"[:300])
